@@ -242,7 +242,7 @@ class Sim:
             p.cur = None
 
     # ------------------------------------------------------------------ durations
-    def draw(self, p, kind, msg):
+    def draw(self, p, kind, msg, was_holder=False):
         rng = p.rng
         lo, hi = 1e-5, 1e-2
         if kind == "codegen":
@@ -261,7 +261,7 @@ class Sim:
             if s["used"] or s["after"] != cls:
                 continue
             if s["proc"] == "holder":
-                if not (p.cur and self.g(p.cur["module"])["holder"] == p.idx):
+                if not was_holder and not (p.cur and self.g(p.cur["module"])["holder"] == p.idx):
                     continue
             elif s["proc"] != p.name:
                 continue
@@ -302,6 +302,8 @@ class Sim:
                 hit = msg.get("role") == "marker" and kind == f.get("on", "open")
             elif k == "lock-eacces":
                 hit = msg.get("role") == "lock" and kind == "open" and "x" in msg.get("mode", "")
+            elif k == "load-fail":
+                hit = kind == "dlopen"
             elif k == "kill-torn-link":
                 hit = kind == "spawn-link-end"
             elif k == "kill-torn-obj":
@@ -325,7 +327,8 @@ class Sim:
         cur["seams"] += 1
         m = cur["module"]
         gh = self.g(m)
-        if gh["holder"] == p.idx:
+        was_holder = gh["holder"] == p.idx
+        if was_holder:
             cur["seams_since_lock"] += 1
         self.bump("seams")
         ans = {"act": "go", "now": self.now}
@@ -364,6 +367,8 @@ class Sim:
                 ans["fail"] = "cc"
             elif k == "ld-fail":
                 ans["fail"] = "ld"
+            elif k == "load-fail":
+                ans = {"act": "raise", "exc": "ImportError", "now": self.now}
             elif k == "marker-enospc":
                 ans = {"act": "raise", "exc": "OSError", "errno": errno.ENOSPC, "now": self.now}
             elif k == "lock-eacces":
@@ -502,6 +507,7 @@ class Sim:
         if ans["act"] == "interrupt":
             cur["interrupted"] = True
         nxt = self.recv(p)
+        self.coarse_dir_time()
         if nxt is None:
             status = self.reap(p)
             expected = ("truncate" in ans) or ("partial" in ans)
@@ -517,7 +523,7 @@ class Sim:
                 else:
                     raise core.HarnessError(f"jitsim child {p.idx} exited unexpectedly, status {status}")
             return
-        d = self.draw(p, kind, msg) + stall
+        d = self.draw(p, kind, msg, was_holder) + stall
         if kind == "sleep":
             d = float(msg["s"]) + 1e-4
         else:
@@ -527,6 +533,18 @@ class Sim:
             self.on_outcome(p, nxt)
         else:
             p.pending = nxt
+
+    def coarse_dir_time(self):
+        """Buggify knob: a file system with 2 s time stamps (ext3, NFS, FAT).  After every granted
+        step the cache directory's mtime is what such a file system would show at this virtual
+        time, so a new file can appear without the directory's mtime changing - which is what
+        importlib's FileFinder keys its directory cache on."""
+        if self.scn.get("coarse_mtime"):
+            t = 1_700_000_000 + 2 * int(self.now // 2)
+            try:
+                os.utime(self.cache, (t, t))
+            except OSError:
+                pass
 
     # ------------------------------------------------------------------ outcomes
     def on_outcome(self, p, out):
@@ -781,6 +799,7 @@ class Sim:
         try:
             scn = self.scn
             self.install_pre()
+            self.coarse_dir_time()
             for i, ps in enumerate(scn["procs"]):
                 p = Proc(i, ps["requests"], ps.get("arrive", 0.0), name=ps.get("name", i))
                 p.rng = core.rng_for(scn["seed"], f"dur{p.name}")
